@@ -25,8 +25,19 @@ def gen_case(rng):
     if r < 0.72:
         f = C.rand_frame(rng, 4, 5, kinds=kinds, na=rng.choice([0.2, 0.45, 0.7]), index_kind=rng.choice(['str', 'int', 'auto']), columns_kind='str')
         lay = C.rand_layout(rng, f)
-        op = rng.choice(['f_isna', 'f_dropna', 'f_dropna', 'f_fillna', 'f_filldir', 'f_filldir', 'f_filldir', 'f_fillsided', 'f_count'])
+        op = rng.choice(['f_isna', 'f_dropna', 'f_dropna', 'f_fillna', 'f_fillna_frame', 'f_fillna_frame', 'f_filldir', 'f_filldir', 'f_filldir', 'f_fillsided', 'f_count'])
         cs = {'op': op, 'f': f}
+        if op == 'f_fillna_frame':
+            # a label-aligned Frame value: a permuted subset of the rows and columns, sometimes an unknown label, its own missing cells
+            vi = [l for l in f['index'] if rng.random() < 0.75]
+            vc = [l for l in f['columns'] if rng.random() < 0.75]
+            rng.shuffle(vi)
+            rng.shuffle(vc)
+            if rng.random() < 0.3:
+                vc.insert(rng.randrange(len(vc) + 1), ['s', 'ZZ'])
+            vk = rng.choice(['f', 'f', 'i', 'fU', 'if'])
+            cs['val'] = {'index': vi, 'columns': vc, 'cols': [C.rand_column(rng, rng.choice(vk), len(vi), 0.2) for _ in vc], 'name': ['none']}
+            return cs, lay
         if op == 'f_isna':
             cs['neg'] = rng.random() < 0.5
         elif op == 'f_dropna':
